@@ -61,15 +61,15 @@ mut("e2-intersects-bbox-one-sided", ["C19", "C02"], "geometry/segment.go",
     "\t\t\tif a.X > c.X || b.X < d.X {",
     "\t\t\tif a.X >= c.X || b.X < d.X {",
     "E", note="one of the eight unrolled bounding-box comparisons made strict")
-mut("e2-hole-boundary-flipped", ["C01", "C19"], "geometry/poly.go",
+mut("e2-hole-boundary-flipped", ["C01"], "geometry/poly.go",
     "\t\tif ringContainsPoint(hole, point, false).hit {",
     "\t\tif ringContainsPoint(hole, point, true).hit {",
     "E2.B1", note="hole boundary no longer belongs to the polygon")
-mut("e2-exterior-exclusive-intersects", ["C02", "C19"], "geometry/poly.go",
+mut("e2-exterior-exclusive-intersects", ["C02"], "geometry/poly.go",
     "\tif !ringIntersectsRing(other.Exterior, poly.Exterior, true) {",
     "\tif !ringIntersectsRing(other.Exterior, poly.Exterior, false) {",
     "E2.B1", note="touching polygons no longer intersect")
-mut("e2-parity-no-toggle", ["C01", "C19"], "geometry/ring.go",
+mut("e2-parity-no-toggle", ["C01"], "geometry/ring.go",
     "\tif res.In {\n\t\t*in = !*in\n\t}",
     "\tif res.In {\n\t\t*in = true\n\t}",
     "E2.B1p", note="crossings set instead of toggling the parity")
@@ -146,7 +146,7 @@ mut("e5-float-g-format", ["C17", "C06"], "object.go",
 mut("e5-nan-guard-dropped", ["C17"], "object.go",
     "\tif math.IsNaN(f) || math.IsInf(f, 0) {",
     "\tif math.IsInf(f, 0) {",
-    "E5.float", note="NaN written as a bare token")
+    "E8", note="NaN written as a bare token")
 mut("e5-view-differs", ["C17"], "feature.go",
     "func (g *Feature) String() string {\n\treturn string(g.AppendJSON(nil))",
     "func (g *Feature) String() string {\n\treturn string(g.base.AppendJSON(nil))",
@@ -189,7 +189,7 @@ mut("e8-choosequad-wrong-quad", ["C04"], "geometry/qtree.go",
     "\tif rect.Max.Y < mid.Y {\n\t\treturn 3\n\t}\n\tif rect.Min.Y < mid.Y {\n\t\treturn -1\n\t}\n\treturn 1",
     "\tif rect.Max.Y < mid.Y {\n\t\treturn 1\n\t}\n\tif rect.Min.Y < mid.Y {\n\t\treturn -1\n\t}\n\treturn 3",
     "E8", note="right-hand quadrants swapped: items stored under a quad whose bounds do not contain them")
-mut("e8-numsegments-closed", ["C18", "C11"], "geometry/series.go",
+mut("e8-numsegments-closed", ["C18"], "geometry/series.go",
     "\t\tif series.points[len(series.points)-1] == series.points[0] {\n\t\t\treturn len(series.points) - 1\n\t\t}\n\t\treturn len(series.points)",
     "\t\tif series.points[len(series.points)-1] == series.points[0] {\n\t\t\treturn len(series.points) - 1\n\t\t}\n\t\treturn len(series.points) - 1",
     "E8", note="implicit closing segment dropped")
